@@ -1,8 +1,11 @@
 import Driver.Common
 import EgVerif.Spec.BrokerSessions
-/-! Judge for C16: replays the harness schedule in the model (`runMacro`), compares the
-snapshot after every macro action, evaluates the executable property (`violation`) on what
-the implementation showed. -/
+/-! Judge for C16: replays the harness schedule in the model (`orunMacro true`: the coarse model with
+the origin of every queued delete event and the repaired broker's own-delete counter —
+fixes/C16-own-delete-event.patch), compares the snapshot after every macro action, evaluates the
+executable property (`violationO`: `violation` + the origin-aware clause for a delivered delete
+event, origins tracked from the actions and the observed `watch` counter) on what the
+implementation showed. -/
 open Lean Driver EgVerif.BrokerSessions
 
 namespace Driver.C16
@@ -71,8 +74,9 @@ def macroTag : MAct → String
   | .admindel => "admindel" | .watch => "watch" | .par .. => "par"
 
 structure Acc where
-  cands : List St            -- model states compatible with the observations so far
+  cands : List OSt           -- model states compatible with the observations so far
   prev : Snap
+  track : Track := {}        -- spec side: origins of the queued delete events (actions + observed counter)
   agree : Bool := true
   sig : String := ""
   note : String := ""
@@ -83,22 +87,29 @@ def discOk (o : ObsStep) (s : St) : Bool :=
   o.seen.all (fun k => (o.disc.contains k) == (s.conn k).disc)
 
 /-- everything of a model state that later steps can depend on (connections 0..15) -/
-def stKey (s : St) : Snap × List Conn × List Sess × Option Nat × Bool :=
-  (project s, (List.range 16).map s.conn, (List.range s.nextSess).map s.sess, s.sessMap, s.doubleClose)
+def stKey (o : OSt) : Snap × List Conn × List Sess × Option Nat × Bool × List Origin × Nat :=
+  let s := o.base
+  (project s, (List.range 16).map s.conn, (List.range s.nextSess).map s.sess, s.sessMap, s.doubleClose, o.origins, o.own)
 
-def dedupSt (l : List (St × Bool)) : List (St × Bool) :=
-  (l.foldl (fun (acc : List ((Snap × List Conn × List Sess × Option Nat × Bool) × Bool × St)) (p : St × Bool) =>
+def dedupSt (l : List (OSt × Bool)) : List (OSt × Bool) :=
+  (l.foldl (fun (acc : List ((Snap × List Conn × List Sess × Option Nat × Bool × List Origin × Nat) × Bool × OSt))
+      (p : OSt × Bool) =>
     let k := stKey p.1
     if acc.any (fun e => e.1 == k && e.2.1 == p.2) then acc else acc ++ [(k, p.2, p.1)]) []).map
     (fun e => (e.2.2, e.2.1))
 
+def originTag : Option Origin → String
+  | some (.admin _) => "watch-admin-origin"
+  | some (.teardownOf _) => "watch-teardown-origin"
+  | none => "watch-unknown-origin"
+
 def stepJudge (acc : Acc) (m : MAct) (o : ObsStep) : Acc :=
-  -- model
-  let nexts : List (St × Bool) := acc.cands.flatMap (fun s =>
-    let sk := skipped true s m
-    (if sk then [s] else runMacro true s m).map (fun s' => (s', sk)))
+  -- model (ostep: enabled exactly when the base step is)
+  let nexts : List (OSt × Bool) := acc.cands.flatMap (fun s =>
+    let sk := skipped true s.base m
+    (if sk then [s] else orunMacro true s m).map (fun s' => (s', sk)))
   let nexts := dedupSt nexts
-  let matching := nexts.filter (fun (s', sk) => project s' == o.snap && sk == o.skipped && discOk o s')
+  let matching := nexts.filter (fun (s', sk) => project s'.base == o.snap && sk == o.skipped && discOk o s'.base)
   let agree := acc.agree && !matching.isEmpty && o.err == ""
   let note := if acc.note == "" && (matching.isEmpty || o.err != "") then
       s!"step {acc.expected.length} {macroTag m}: err='{o.err}' skipped={o.skipped}" else acc.note
@@ -106,10 +117,19 @@ def stepJudge (acc : Acc) (m : MAct) (o : ObsStep) : Acc :=
   let superseded := match m, acc.prev.reg with
     | .drop j, some k => k != j && !acc.prev.regDisc
     | _, _ => false
-  let v := violation acc.prev m o.skipped o.snap
-  let v := match v, m, acc.prev.reg with
-    | none, .watch, some k =>
+  let head := acc.track.head
+  let v := violationO acc.track acc.prev m o.skipped o.snap
+  let v := match v, m, head with
+    | none, .watch, some (.admin (some k)) =>
+      -- the victim's broker-side Client must report disconnected()
       if !o.skipped && o.seen.contains k && !o.disc.contains k then some "admin-delete:client-not-disconnected" else none
+    | none, .watch, some (.teardownOf j) =>
+      -- a live connection other than the event's origin must not be flagged disconnected by it
+      (match liveReg acc.prev with
+       | some k => if !o.skipped && k != j && o.disc.contains k then
+           some (if acc.track.overtaken then "stale-teardown-event:after-overtaken-admin-event"
+                 else "stale-teardown-event:new-connection-disconnected") else none
+       | none => none)
     | v, _, _ => v
   let v := if v.isNone && o.err != "" then some ("harness-error:" ++ o.err) else v
   let sig := if acc.sig == "" then (match v with | some s => s | none => "") else acc.sig
@@ -118,9 +138,16 @@ def stepJudge (acc : Acc) (m : MAct) (o : ObsStep) : Acc :=
     ++ (match m, acc.prev.reg with
         | .connect .., some _ => if !o.skipped then ["takeover"] else []
         | _, _ => [])
+    ++ (match m with
+        | .watch => if o.skipped then [] else
+            [originTag head] ++ (match head, liveReg acc.prev with
+              | some (.teardownOf j), some k => if k != j then ["stale-teardown-event-with-live-connection"] else []
+              | _, _ => [])
+        | _ => [])
   { cands := if matching.isEmpty then nexts.map (·.1) |>.take 1 else matching.map (·.1),
-    prev := o.snap, agree := agree, sig := sig, note := note, tags := tags,
-    expected := acc.expected ++ [match nexts with | (s', _) :: _ => snapJson (project s') | [] => Json.null] }
+    prev := o.snap, track := trackStep acc.track acc.prev m o.skipped o.snap,
+    agree := agree, sig := sig, note := note, tags := tags,
+    expected := acc.expected ++ [match nexts with | (s', _) :: _ => snapJson (project s'.base) | [] => Json.null] }
 
 def dedup (l : List String) : List String := l.foldl (fun acc x => if acc.contains x then acc else acc ++ [x]) []
 
@@ -181,7 +208,7 @@ def judge : Judge := liftJudge fun input obs => do
     pure { agree := false, spec := true, note := "judge-bad-input: steps/actions length" }
   else
   let acc := (macros.zip steps).foldl (fun acc (m, o) => stepJudge acc m o)
-    { cands := [EgVerif.BrokerSessions.init], prev := project EgVerif.BrokerSessions.init }
+    { cands := [EgVerif.BrokerSessions.oinit], prev := project EgVerif.BrokerSessions.init }
   -- delivery probe: the surviving connection receives exactly the messages of the topics its session holds
   let probed := optBool obs "probed"
   let delivered ← natList obs "delivered"
